@@ -186,4 +186,154 @@ theorem opSgt_spec (x y : W) : Gen.opSgt x.toNat y.toNat = (Spec.sgt x y).toNat 
   simp only [Gen.opSgt, cmp_lt, cmp_gt, cmp_ge, vm_tt255_eq, wrapU64_0, wrapU64_1, Spec.sgt, ofBool_toNat, toInt_eq]
   have := x.isLt; have := y.isLt
   split_ifs <;> omega
+theorem S256_toInt (x : W) : Gen.S256 x.toNat = x.toInt := by
+  simp only [Gen.S256, cmp_lt, tt255_eq, tt256_eq, Big.sub, toInt_eq]
+
+/-- truncated division through absolute values, as the Go code computes it -/
+theorem tdiv_abs (X Y : Int) :
+    Int.tdiv X Y = if (X < 0 ↔ Y < 0) then (X.natAbs : Int) / (Y.natAbs : Int) else -((X.natAbs : Int) / (Y.natAbs : Int)) := by
+  rcases Int.le_total 0 X with hx | hx <;> rcases Int.le_total 0 Y with hy | hy
+  · rw [Int.natAbs_of_nonneg hx, Int.natAbs_of_nonneg hy, Int.tdiv_eq_ediv_of_nonneg hx]
+    have : (X < 0 ↔ Y < 0) := by omega
+    rw [if_pos this]
+  · obtain ⟨n, hn, rfl⟩ : ∃ n : Int, 0 ≤ n ∧ Y = -n := ⟨-Y, by omega, by omega⟩
+    rw [Int.natAbs_of_nonneg hx, Int.natAbs_neg, Int.natAbs_of_nonneg hn, Int.tdiv_neg, Int.tdiv_eq_ediv_of_nonneg hx]
+    by_cases h0 : n = 0
+    · subst h0; simp
+    · have : ¬ (X < 0 ↔ -n < 0) := by omega
+      rw [if_neg this]
+  · obtain ⟨m, hm, rfl⟩ : ∃ m : Int, 0 ≤ m ∧ X = -m := ⟨-X, by omega, by omega⟩
+    rw [Int.natAbs_neg, Int.natAbs_of_nonneg hm, Int.natAbs_of_nonneg hy, Int.neg_tdiv, Int.tdiv_eq_ediv_of_nonneg hm]
+    by_cases h0 : m = 0
+    · subst h0; simp
+    · have : ¬ (-m < 0 ↔ Y < 0) := by omega
+      rw [if_neg this]
+  · obtain ⟨m, hm, rfl⟩ : ∃ m : Int, 0 ≤ m ∧ X = -m := ⟨-X, by omega, by omega⟩
+    obtain ⟨n, hn, rfl⟩ : ∃ n : Int, 0 ≤ n ∧ Y = -n := ⟨-Y, by omega, by omega⟩
+    rw [Int.natAbs_neg, Int.natAbs_neg, Int.natAbs_of_nonneg hm, Int.natAbs_of_nonneg hn, Int.neg_tdiv_neg, Int.tdiv_eq_ediv_of_nonneg hm]
+    by_cases h0 : m = 0
+    · subst h0; simp
+    by_cases h1 : n = 0
+    · subst h1; simp
+    · have : (-m < 0 ↔ -n < 0) := by omega
+      rw [if_pos this]
+
+theorem toInt_eq_zero (y : W) : y.toInt = 0 ↔ y = 0 := by
+  constructor
+  · intro h; apply BitVec.eq_of_toInt_eq; simpa using h
+  · intro h; subst h; simp
+
+theorem ofInt_toNat (v : Int) : ((BitVec.ofInt 256 v).toNat : Int) = v % 2^256 := by
+  rw [BitVec.toNat_ofInt, Int.toNat_of_nonneg (Int.emod_nonneg _ (by norm_num))]
+  norm_num
+
+theorem sign_ne (X Y : Int) (hx : X ≠ 0) (hy : Y ≠ 0) : Big.sign X ≠ Big.sign Y ↔ ¬ (X < 0 ↔ Y < 0) := by
+  unfold Big.sign; split_ifs <;> omega
+
+theorem opSdiv_spec (x y : W) : Gen.opSdiv x.toNat y.toNat = (Spec.sdiv x y).toNat := by
+  simp only [Gen.opSdiv, S256_toInt, sign_eq_zero, Spec.sdiv, U256_eq, toInt_eq_zero]
+  by_cases hy : y = 0
+  · subst hy; simp
+  by_cases hx : x = 0
+  · subst hx; simp [hy]
+  have hX : x.toInt ≠ 0 := fun h => hx ((toInt_eq_zero x).1 h)
+  have hY : y.toInt ≠ 0 := fun h => hy ((toInt_eq_zero y).1 h)
+  have hYa : ((y.toInt.natAbs : Nat) : Int) ≠ 0 := by omega
+  simp only [hy, hx, or_self, if_false, ofInt_toNat, sign_ne _ _ hX hY, Big.abs, Big.div, Big.neg,
+    Int.ofNat_eq_natCast, hYa, tdiv_abs]
+  split_ifs <;> rfl
+
+theorem tmod_abs (X Y : Int) :
+    Int.tmod X Y = if X < 0 then -((X.natAbs : Int) % (Y.natAbs : Int)) else (X.natAbs : Int) % (Y.natAbs : Int) := by
+  have habs : ∀ m : Int, 0 ≤ m → m.tmod Y = m % (Y.natAbs : Int) := by
+    intro m hm
+    rcases Int.le_total 0 Y with hy | hy
+    · rw [Int.natAbs_of_nonneg hy, Int.tmod_eq_emod_of_nonneg hm]
+    · obtain ⟨n, hn, rfl⟩ : ∃ n : Int, 0 ≤ n ∧ Y = -n := ⟨-Y, by omega, by omega⟩
+      rw [Int.natAbs_neg, Int.natAbs_of_nonneg hn, Int.tmod_neg, Int.tmod_eq_emod_of_nonneg hm]
+  rcases Int.le_total 0 X with hx | hx
+  · rw [Int.natAbs_of_nonneg hx, habs X hx, if_neg (by omega)]
+  · obtain ⟨m, hm, rfl⟩ : ∃ m : Int, 0 ≤ m ∧ X = -m := ⟨-X, by omega, by omega⟩
+    rw [Int.natAbs_neg, Int.natAbs_of_nonneg hm, Int.neg_tmod, habs m hm]
+    by_cases h0 : m = 0
+    · subst h0; simp
+    · rw [if_pos (by omega)]
+
+theorem opSmod_spec (x y : W) : Gen.opSmod x.toNat y.toNat = (Spec.smod x y).toNat := by
+  simp only [Gen.opSmod, S256_toInt, sign_eq_zero, sign_neg, Spec.smod, U256_eq, toInt_eq_zero]
+  by_cases hy : y = 0
+  · subst hy; simp
+  have hY : y.toInt ≠ 0 := fun h => hy ((toInt_eq_zero y).1 h)
+  have hYa : ((y.toInt.natAbs : Nat) : Int) ≠ 0 := by omega
+  simp only [hy, if_false, ofInt_toNat, Big.abs, Big.mod, Big.neg, Int.ofNat_eq_natCast, hYa, tmod_abs]
+  split_ifs <;> rfl
+
+theorem U256_toNat (x : W) : Gen.U256 x.toNat = x.toNat := by
+  rw [U256_eq]; have := x.isLt; omega
+
+theorem uint64_small (n : Nat) (h : n < 2^64) : Big.wrapU64 (Big.uint64 (n:Int)) = n := by
+  simp only [Big.wrapU64, Big.uint64, Int.natAbs_natCast, Int.ofNat_eq_natCast]
+  omega
+
+theorem opSHL_spec (s x : W) : Gen.opSHL s.toNat x.toNat = (Spec.shl s x).toNat := by
+  simp only [Gen.opSHL, U256_toNat, cmp_ge, Big256_eq, wrapU64_0, Spec.shl, BitVec.toNat_ofNat]
+  by_cases h : (s.toNat : Int) ≥ 256
+  · rw [if_pos h]
+    have h' : 256 ≤ s.toNat := by omega
+    have : 2^256 ∣ x.toNat * 2^s.toNat := Nat.dvd_trans (Nat.pow_dvd_pow 2 h') (Nat.dvd_mul_left _ _)
+    rw [Nat.mod_eq_zero_of_dvd this]; rfl
+  · rw [if_neg h, uint64_small _ (by omega)]
+    simp only [Big.lsh, Int.toNat_natCast, U256_eq]
+    push_cast; rfl
+
+theorem opSHR_spec (s x : W) : Gen.opSHR s.toNat x.toNat = (Spec.shr s x).toNat := by
+  simp only [Gen.opSHR, U256_toNat, cmp_ge, Big256_eq, wrapU64_0, Spec.shr, BitVec.toNat_ofNat]
+  have hx := x.isLt
+  by_cases h : (s.toNat : Int) ≥ 256
+  · rw [if_pos h]
+    have h' : 256 ≤ s.toNat := by omega
+    have : x.toNat < 2^s.toNat := Nat.lt_of_lt_of_le hx (Nat.pow_le_pow_right (by norm_num) h')
+    rw [Nat.div_eq_of_lt this]; rfl
+  · rw [if_neg h, uint64_small _ (by omega)]
+    simp only [Big.rsh, Int.toNat_natCast, Int.shiftRight_eq_div_pow, U256_eq]
+    push_cast; rfl
+
+theorem toInt_bounds (x : W) : -2^255 ≤ x.toInt ∧ x.toInt < 2^255 := by
+  rw [toInt_eq]; have := x.isLt; split <;> omega
+
+theorem wrapI64_m1 : Big.wrapI64 (-1) = -1 := by decide
+
+theorem ediv_big_pow (X : Int) (s : Nat) (hs : 256 ≤ s) (h1 : -2^255 ≤ X) (h2 : X < 2^255) :
+    X / (2:Int)^s = if 0 ≤ X then 0 else -1 := by
+  have hp : (2:Int)^256 ≤ 2^s := by
+    have : (2:Nat)^256 ≤ 2^s := Nat.pow_le_pow_right (by norm_num) hs
+    exact_mod_cast this
+  have hpos : (0:Int) < 2^s := by positivity
+  split_ifs with h
+  · exact Int.ediv_eq_zero_of_lt h (by omega)
+  · have := (Int.ediv_emod_unique (a := X) (b := 2^s) (q := -1) (r := X + 2^s) hpos).2 ⟨by ring, by omega, by omega⟩
+    exact this.1
+
+theorem opSAR_spec (s x : W) : Gen.opSAR s.toNat x.toNat = (Spec.sar s x).toNat := by
+  simp only [Gen.opSAR, U256_toNat, S256_toInt, cmp_ge, Big256_eq, wrapU64_0, wrapI64_m1, sign_nonneg, Spec.sar, ofInt_toNat]
+  obtain ⟨h1, h2⟩ := toInt_bounds x
+  by_cases h : (s.toNat : Int) ≥ 256
+  · rw [if_pos h, ediv_big_pow _ _ (by omega) h1 h2]
+    simp only [U256_eq]
+    split_ifs <;> first | rfl | omega
+  · rw [if_neg h, uint64_small _ (by omega)]
+    simp only [Big.rsh, Int.toNat_natCast, Int.shiftRight_eq_div_pow, U256_eq]
+    push_cast; rfl
+
+theorem opAdd_spec (x y : W) : Gen.opAdd x.toNat y.toNat = (Spec.add x y).toNat := by
+  simp only [Gen.opAdd, Big.add, U256_eq, Spec.add, BitVec.toNat_ofNat]
+  omega
+
+theorem opMul_spec (x y : W) : Gen.opMul x.toNat y.toNat = (Spec.mul x y).toNat := by
+  simp only [Gen.opMul, Big.mul, U256_eq, Spec.mul, BitVec.toNat_ofNat]
+  push_cast; rfl
+
+theorem opSub_spec (x y : W) : Gen.opSub x.toNat y.toNat = (Spec.sub x y).toNat := by
+  simp only [Gen.opSub, Big.sub, U256_eq, Spec.sub, ofInt_toNat]
+
 end YouVerif.C15.Proofs
